@@ -74,8 +74,8 @@ def normalize_struct(struct, count_map=None):
 
 def shape_of(text):
     """Derivation shape: symbols, isotope/ion tags and counts abstracted."""
-    s = re.sub(r'\[[0-9]+\]', 'I', text)
-    s = re.sub(r'\{[0-9]*[+-]\}', 'Q', s)
+    s = re.sub(r'\[[0-9]+\]', '^', text)      # isotope tag
+    s = re.sub(r'\{[0-9]*[+-]\}', '~', s)      # ion tag
     s = re.sub(r'[A-Z][a-z]?', 'E', s)
     s = re.sub(r'[0-9]*\.[0-9]*', 'f', s)
     s = re.sub(r'[0-9]+', 'n', s)
